@@ -190,6 +190,27 @@ NOT_BUILT_REASON = "check not built yet in this round (planned: see DESIGN.md §
 
 ALL = ["C%02d" % i for i in range(1, 21)]
 
+# shared premises: rules of sibling properties that run inside this check (DESIGN §0.3) and rules added after the plan
+EXTRA = {
+    "C01": "Shared premises run inside this check: proposal accounting (C08.B/S/F), cache keys and memoisation (C14.K1-K4), the specified density (C03.T1-T3), the permutation distribution (C09.P1-P4), reference semantics of the tree editor (TS), deep copies and refresh pairing (C06.M1/M2/M4).",
+    "C02": "Also: reference semantics of Tree.update and the payload methods (TS); content-hash keys of the memoised recursion (C14.K2-K4); the floor covers non-positive entries and is tiny.",
+    "C03": "Also: reference semantics of the tree queries the densities read (TS).",
+    "C04": "Also: subtree move known finding F11 (P3). Shared premises: refresh pairing (C06.M1/M2), deep copies (C06.M4), the specified density (C03.T1-T3), reference semantics of the tree editor (TS), linear use of data points (C07.L1).",
+    "C05": "Also: the per-genotype array has exactly one slot per genotype.",
+    "C06": "Also: reference semantics of every editor method (TS), relabelling keeps data with its node (C07.V2), memoisation premises (C14.K2-K4).",
+    "C07": "Also: reference semantics of the editor (TS), whole-tree reset guarded by tree equality (R0), label discipline (N0); shared premises: deep copies (C06.M4), proposal arms extend a copy of the parent by exactly the new point (C08.A1/A2/X1).",
+    "C08": "Also: the adapted outcome is accounted for both placements it covers (existing clone, outlier set); an arm starts from an empty tree only without a parent (A2); reference semantics of the tree editor (TS).",
+    "C10": "Also: the traceback's early return is for childless nodes only; the per-sample budget decrement; shared premise: the networkx copy holds every node (C12.N1).",
+    "C11": "Also: the report that is written is the ranked frame, the archive is cut from the same frame and dictionary (A6); shared premises: Tree.__eq__/__hash__ (C03.I1/I2) and the clade helpers (TS).",
+    "C12": "Also: every (clone, sample) group is returned whether or not the clone has a CCF; shared premises: the MAP traceback and output formulas (C10.X1-X5).",
+    "C13": "The returned value is compared modulo tiny positive floors (their presence is C19.T5's business).",
+    "C15": "Also: reserved entries of the dictionary form; shared premises: assigning alpha refreshes what is derived from it (C13.U3), log_p_one is the specified density (C03.T1-T3).",
+    "C16": "Also: reference semantics of the clade helpers and the consensus helpers relabel / roots / clean_tree / from_dict_nx / get_tree_from_consensus_graph (TS). Known finding F9 (S6).",
+    "C17": "Also: a documented filter or default that runs only under a size test (row / sample / mutation counts) is reported.",
+    "C19": "Also: the concentration is floored on every arm (T5; defect F12 repaired). Shared premises: linear use (C07.L1), floor before log (C02.N4), the specified density (C03.T1-T3), deep copies of recorded forms (C06.M4), reference semantics of the editor (TS), proposal threshold chains (C08.B/S/F).",
+    "C20": "Also: a reader that takes end-of-stream as end-of-data is reported (P0).",
+}
+
 
 def main():
     checks = []
@@ -197,6 +218,8 @@ def main():
     for pid in ALL:
         if pid in CLAIMS and os.path.exists(os.path.join(VERIF, "pcstatic", "props", pid + ".py")):
             text, note, tech, ref = CLAIMS[pid]
+            if pid in EXTRA:
+                text = text + " " + EXTRA[pid]
             checks.append(
                 {
                     "property_id": pid,
